@@ -143,6 +143,19 @@ Proof.
     rewrite cnt_sig_app, !cnt_sig_filter, P0 in E. lia. }
   destruct (in_split _ _ Hin) as (x1 & x2 & ->). rewrite ssum_app. cbn [ssum]. lia.
 Qed.
+Lemma sum_le_plus F P U R s0 : (forall s, P s = true -> cnt_sig s U <= cnt_sig s R) ->
+  (forall s, P s = false -> F s = 0) ->
+  P s0 = true -> cnt_sig s0 U < cnt_sig s0 R -> ssum F U + F s0 <= ssum F R.
+Proof.
+  intros C Z P0 Lt. rewrite <- (ssum_filter F P U Z), <- (ssum_filter F P R Z).
+  destruct (submultiset (filter P U) (filter P R)) as [X PX].
+  { intros s. rewrite !cnt_sig_filter. destruct (P s) eqn:Ps; [apply C, Ps|lia]. }
+  rewrite (ssum_perm F _ _ PX), ssum_app.
+  assert (In s0 X) as Hin.
+  { apply cnt_sig_pos_in. pose proof (cnt_sig_perm s0 _ _ PX) as E.
+    rewrite cnt_sig_app, !cnt_sig_filter, P0 in E. lia. }
+  destruct (in_split _ _ Hin) as (x1 & x2 & ->). rewrite ssum_app. cbn [ssum]. lia.
+Qed.
 Lemma sum_eq F P U R : (forall s, P s = true -> cnt_sig s U = cnt_sig s R) ->
   (forall s, P s = false -> F s = 0) -> ssum F U = ssum F R.
 Proof.
@@ -635,9 +648,38 @@ Section LawStep.
       rewrite Ey. destruct (forallb (fun g => l_struct_ok h g x) gs) eqn:SO; [|reflexivity]. cbn [negb orb].
       rewrite Ny; [reflexivity|]. intros g Hg. apply struct_ok_flag; [exact Wf|].
       rewrite forallb_forall in SO. apply SO, Hg. }
-    assert (forall b2 b8 b4, b2 = true -> b8 = true -> b4 = true -> chk 1 true ++ chk 2 b2 ++ chk 8 b8 ++ chk 4 b4 = []) as K
-        by (intros b2 b8 b4 -> -> ->; reflexivity).
-    rewrite C1. apply K; [exact C2|apply (clause8 s' L' (dead_objs s) cur I')|exact C4].
+    (* clause 9: the removal of a live registration succeeds *)
+    assert (negb (Nat.ltb (cnt_sig (x, hd, dp, gs) (unregs L)) (cnt_sig (x, hd, dp, gs) (regs L))
+                  && negb (key_overdrawn L (hd, x, dp))) || is_none (o_out ob) = true) as C9.
+    { destruct (Nat.ltb (cnt_sig (x, hd, dp, gs) (unregs L)) (cnt_sig (x, hd, dp, gs) (regs L))
+                && negb (key_overdrawn L (hd, x, dp))) eqn:Pre; [|reflexivity]. cbn [negb orb].
+      apply andb_true_iff in Pre. destruct Pre as [Lt NO]. apply Nat.ltb_lt in Lt. apply negb_true_iff in NO.
+      assert (In (x, hd, dp, gs) (regs L)) as Hin by (apply cnt_sig_pos_in; lia).
+      assert (forall g, In g gs -> snd (plan h (hd, x, dp) false g x) = false) as Fg by (apply (Fl x hd dp gs Hin)).
+      assert (forall o c, gsum h (hd, x, dp) gs x o c <= cntH (st_hooks s) o c) as Cn.
+      { intros o c. destruct c as [a|i].
+        - destruct (key_eqb (akey_key a) (hd, x, dp)) eqn:Ka.
+          + specialize (Acc o (CK a)). rewrite !sigs_cnt_ssum in Acc.
+            pose proof (sum_le_plus (fun s0 => sig_cnt h s0 o (CK a)) (fun s0 => key_eqb (sig_key s0) (hd, x, dp))
+                          (unregs L) (regs L) (x, hd, dp, gs)) as SL.
+            assert (ssum (fun s0 => sig_cnt h s0 o (CK a)) (unregs L) + gsum h (hd, x, dp) gs x o (CK a)
+                    <= ssum (fun s0 => sig_cnt h s0 o (CK a)) (regs L)) as SL'.
+            { change (gsum h (hd, x, dp) gs x o (CK a)) with (sig_cnt h (x, hd, dp, gs) o (CK a)). apply SL.
+              - intros s0 K0. apply (not_overdrawn_counts L _ NO s0 K0).
+              - intros s0 K0. apply sig_cnt_other_key. intros E. apply key_eqb_spec in Ka. rewrite Ka in E.
+                rewrite <- E, key_eqb_refl in K0. discriminate.
+              - cbn [sig_key]. apply key_eqb_refl.
+              - exact Lt. }
+            lia.
+          + rewrite gsum_other_key; [lia|]. intros E. rewrite E, key_eqb_refl in Ka. discriminate.
+        - assert (gsum h (hd, x, dp) gs x o (CF i) = 0) as ->; [|lia].
+          clear. induction gs as [|g gs IH]; [reflexivity|]. cbn [gsum]. rewrite IH. unfold pcnt. rewrite plan_no_foreign. reflexivity. }
+      destruct (apply_loop_rm_succeeds h (hd, x, dp) x gs (st_hooks s) [] (proj1 Ws) Fg Cn) as [H' E].
+      cbn [step] in S. unfold apply_observers in S. rewrite E in S. inversion S. reflexivity. }
+    assert (forall b2 b8 b4 b9, b2 = true -> b8 = true -> b4 = true -> b9 = true ->
+                                chk 1 true ++ chk 2 b2 ++ chk 8 b8 ++ chk 4 b4 ++ chk 9 b9 = []) as K
+        by (intros b2 b8 b4 b9 -> -> -> ->; reflexivity).
+    rewrite C1. apply K; [exact C2|apply (clause8 s' L' (dead_objs s) cur I')|exact C4|exact C9].
   Qed.
 
   (* ---------- clause 3: call counts ---------- *)
